@@ -1586,6 +1586,11 @@ class Frame(object):
                     recv.elems.extend(args[0].elems)
                     record(ftext)
                     return Const(None)
+                if meth == 'insert' and len(args) == 2 and isinstance(args[0], Const) and isinstance(args[0].value, int) and \
+                        not isinstance(args[0].value, bool) and not any(isinstance(e, EachV) for e in recv.elems):
+                    recv.elems.insert(args[0].value, args[1])
+                    record(ftext)
+                    return Const(None)
                 if meth == 'extend' and len(args) == 1 and isinstance(args[0], EachV):
                     # L.extend(<comprehension>) == for x in ..: L.append(elt): the same summary element a loop gets
                     recv.elems.append(args[0])
